@@ -20,7 +20,7 @@ Lemma wf_item_not_union it d : wf_item it -> item_is_union it = false -> In d (i
 Proof.
   intros [_ W] NU H. destruct it as [d0|disc id inc vs]; cbn in *.
   - destruct H as [<-|[]]. destruct (d_shape d0); congruence.
-  - rewrite Forall_forall in W. auto.
+  - rewrite Forall_forall in W. apply W. assumption.
 Qed.
 
 Section Eq.
